@@ -22,6 +22,7 @@ def run(ctx, broken):
     for i, (name, src) in enumerate(cs):
         entries.append("%s 706c6f6e6b || %s" % ("pxv" if i < 3 or ctx.tier != "quick" else "px", src))
     lines += r.emit("emitv", entries, ctx.seed + 1, 0)
+    lines += compensated_public_inputs(ctx, lines, 3)
     r.run(lines)
     st = r.report()
     st["rule"] = ("one circuit compiled under 6 labels (one byte changed, case, shorter, trailing NUL, empty) with every proof "
